@@ -1,5 +1,6 @@
 """Calls: specification forms, builtins, container methods, contracted callees, closures, iteration."""
 import ast
+import collections
 import z3
 from . import core
 from .core import (CTX, V, NONEV, INT, BOOL, STR, NONE, PY, EXC, REAL, U, List, Set, Map, Opt, Tup, Ref, Fn,
@@ -14,6 +15,11 @@ class CallMixin(object):
 
     def ex_Call(self, e, st):
         f = e.func
+        if not any(isinstance(a, ast.Starred) for a in e.args) and sum(1 for k in e.keywords if k.arg is None) == 1 and \
+                isinstance(f, ast.Attribute) and isinstance(f.value, ast.Call) and isinstance(f.value.func, ast.Name) and f.value.func.id == "super":
+            # super().m(a, **kwargs): the mapping is handed to the callee's **kwargs parameter
+            e2 = ast.copy_location(ast.Call(func=f, args=e.args, keywords=[ast.keyword(arg="**" if k.arg is None else k.arg, value=k.value) for k in e.keywords]), e)
+            return self.call_super(f.attr, e2, st)
         if any(isinstance(a, ast.Starred) for a in e.args) or any(k.arg is None for k in e.keywords):
             return self.call_starred(e, st)
         # ---- specification forms / builtins by name (in specifications they win over a local of the same name)
@@ -196,10 +202,25 @@ class CallMixin(object):
         bound = {}
         for n, a in zip(names, args):
             bound[n] = a
+        extra = collections.OrderedDict()
         for k, v in kw.items():
-            if k not in c.params:
-                raise OutsideSubset("unknown keyword %s for %s" % (k, c.qualname))
-            bound[k] = v
+            if k == "**":
+                bound["kwargs"] = v
+            elif k not in c.params:
+                if "kwargs" in c.params and isinstance(c.params["kwargs"], Map):
+                    extra[k] = v            # collected by the callee's **kwargs
+                else:
+                    raise OutsideSubset("unknown keyword %s for %s" % (k, c.qualname))
+            else:
+                bound[k] = v
+        if extra:
+            mt = c.params["kwargs"]
+            m = bound.get("kwargs") or core.mempty(mt.k, mt.v)
+            for k, v in extra.items():
+                m = core.mstore(m, mk_str(k), self.adapt(v, mt.v))
+            bound["kwargs"] = m
+        elif "kwargs" in c.params and "kwargs" not in bound and isinstance(c.params["kwargs"], Map):
+            bound["kwargs"] = core.mempty(c.params["kwargs"].k, c.params["kwargs"].v)
         for n in names:
             if n not in bound:
                 if n in c.defaults:
@@ -333,6 +354,8 @@ class CallMixin(object):
                     for k in node.keywords:
                         if k.arg == m:
                             argnode = k.value
+            if argnode is None and node is None and m in st.env:
+                argnode = ast.Name(id=m, ctx=ast.Load())        # refinement check: parameters are the environment
             if argnode is None:
                 raise OutsideSubset("in/out parameter %s of %s: argument is not a place" % (m, c.qualname))
             sts = self.assign(_as_store(argnode), nv, st, None, inplace=True)
@@ -428,6 +451,10 @@ class CallMixin(object):
         ty = recv.ty
         if isinstance(ty, Ref):
             c = self.reg.methods.get((ty.cls, name))
+            if c is None and name in ("items", "keys", "values") and self.reg.classes[ty.cls].get("__mapview__"):
+                # a dict subclass: the view methods are those of its content map
+                inner = self.heap_get(st, recv, self.reg.classes[ty.cls]["__mapview__"])
+                return self.method(inner, name, args, kw, st, node, None)
             if c is None:
                 cands = getattr(self.reg, "callables", {}).get((ty.cls, name))
                 if cands is not None:
@@ -452,7 +479,18 @@ class CallMixin(object):
                 return []
             inner = core.oval(recv)
             if name in MUTATORS:
-                raise OutsideSubset("mutation through optional container")
+                h = getattr(self, "m_%s_%s" % (_kind(inner.ty), name), None)
+                if h is None:
+                    raise OutsideSubset("method %s on %r" % (name, inner.ty))
+                res = []
+                for o in h(inner, args, kw, b, node):
+                    if len(o) == 3:
+                        st1, r, newrecv = o
+                        for s2 in self.assign(_as_store(recv_node), core.osome(ty, newrecv), st1, None, inplace=True):
+                            res.append((s2, r))
+                    else:
+                        res.append(o)
+                return res
             return self.method(inner, name, args, kw, b, node, recv_node)
         h = getattr(self, "m_%s_%s" % (_kind(ty), name), None)
         if h is None and ty is PY and name in getattr(self.reg, "opaque_methods", ()):
